@@ -218,6 +218,9 @@ func (m *Manager) reconnect(recursed bool, closeGen uint64) {
 
 	if stopped() {
 		m.debug.Log("Skipping reconnect")
+		// (`Close` has reset the back-off; this round may have drawn a delay from it since.
+		// Whoever opens the manager next starts from the beginning, see `maybeReconnectOnOpen`.)
+		m.backoff.reset()
 		m.notReconnecting()
 		return
 	}
@@ -227,6 +230,9 @@ func (m *Manager) reconnect(recursed bool, closeGen uint64) {
 
 	if stopped() {
 		m.debug.Log("Skipping reconnect")
+		// (`Close` has reset the back-off; this round may have drawn a delay from it since.
+		// Whoever opens the manager next starts from the beginning, see `maybeReconnectOnOpen`.)
+		m.backoff.reset()
 		m.notReconnecting()
 		return
 	}
